@@ -76,6 +76,13 @@ Section Proofs.
   Notation norm := (norm val rt).
   Notation merge_into := (merge_into val).
   Notation init_map := (init_map val vnet vfront).
+  Notation script_new := (script_new val).
+  Notation script_dirty := (script_dirty val).
+  Notation script_front := (script_front val rt).
+  Notation script_snaps := (script_snaps val rt).
+  Notation script_data := (script_data val).
+  Notation script_acks := (script_acks val).
+  Notation has_query := (has_query val).
   Notation step := (step val rt vnet vfront vempty route).
   Notation run_from := (run_from val rt vnet vfront vempty route).
   Notation final := (final val rt vnet vfront vempty route).
@@ -115,13 +122,26 @@ Section Proofs.
     destruct (Z.eqb k k0); [reflexivity | exact IH].
   Qed.
 
+  Lemma sorted_script_front acts : forall (m nw : smap) d, sorted m -> sorted (script_front m nw d acts).
+  Proof.
+    induction acts as [|a r IH]; intros m nw d S; simpl; [exact S|].
+    destruct a as [k v| |]; [apply IH; exact S | | apply IH; exact S].
+    destruct d; apply IH; [apply (sorted_merge val)|]; exact S.
+  Qed.
+
+  Lemma sorted_script_new acts : forall nw : smap, sorted nw -> sorted (script_new nw acts).
+  Proof.
+    induction acts as [|a r IH]; intros nw S; simpl; [exact S|].
+    destruct a as [k v| |]; apply IH; [apply sorted_aset|..]; exact S.
+  Qed.
+
   (* ---------- consistency of the history functions ---------- *)
 
   Lemma fmap_live rh sid : conn_r rh sid = CLive <-> exists m, fmap_r rh sid = Some m.
   Proof.
     induction rh as [|o older IH]; simpl.
     - split; [discriminate | intros [m H]; discriminate].
-    - destruct o as [s|s|s k v|s k|s|s|b s|b k v|b k|b|b|b]; simpl; try exact IH.
+    - destruct o as [s|s|s k v|s k|s|s|b s|b k v|b k|b|b|b|b acts]; simpl; try exact IH.
       + destruct (Z.eqb s sid); [|exact IH].
         destruct (conn_r older sid) eqn:C; [split; eauto | exact IH | exact IH].
       + destruct (Z.eqb s sid); [|exact IH].
@@ -134,12 +154,16 @@ Section Proofs.
         destruct (fmap_r older sid) as [m|] eqn:F; simpl.
         * split; [eauto | intros _; apply IH; eauto].
         * split; [intro H; apply IH in H; destruct H; discriminate | intros [m H]; discriminate].
+      + destruct (bsid_r older b) as [sd|]; [|exact IH]. destruct (Z.eqb sd sid); [|exact IH].
+        destruct (fmap_r older sid) as [m|] eqn:F; simpl.
+        * split; [eauto | intros _; apply IH; eauto].
+        * split; [intro H; apply IH in H; destruct H; discriminate | intros [m H]; discriminate].
   Qed.
 
   Lemma fmap_sorted rh sid m : fmap_r rh sid = Some m -> sorted m.
   Proof.
     revert m. induction rh as [|o older IH]; intros m; simpl; [discriminate|].
-    destruct o as [s|s|s k v|s k|s|s|b s|b k v|b k|b|b|b]; simpl; try apply IH.
+    destruct o as [s|s|s k v|s k|s|s|b s|b k v|b k|b|b|b|b acts]; simpl; try apply IH.
     - destruct (Z.eqb s sid); [|apply IH]. destruct (conn_r older sid); try apply IH.
       intro H. inv H. unfold Model.init_map. apply sorted_aset, sorted_aset. exact I.
     - destruct (Z.eqb s sid); [discriminate | apply IH].
@@ -148,26 +172,31 @@ Section Proofs.
     - destruct (effective_push older b sid) as [w|]; [|apply IH].
       destruct (fmap_r older sid) as [m0|]; simpl; [|discriminate].
       intro H. inv H. apply (sorted_merge val). apply IH. reflexivity.
+    - destruct (bsid_r older b) as [sd|]; [|apply IH]. destruct (Z.eqb sd sid); [|apply IH].
+      destruct (fmap_r older sid) as [m0|]; simpl; [|discriminate].
+      intro H. inv H. apply sorted_script_front. apply IH. reflexivity.
   Qed.
 
   Lemma bnew_sorted rh b : sorted (bnew_r rh b).
   Proof.
     induction rh as [|o older IH]; simpl; [exact I|].
-    destruct o as [s|s|s k v|s k|s|s|b0 s|b0 k v|b0 k|b0|b0|b0]; simpl; try exact IH.
-    destruct (Z.eqb b0 b); [|exact IH]. destruct (bsid_r older b); [apply sorted_aset; exact IH | exact I].
+    destruct o as [s|s|s k v|s k|s|s|b0 s|b0 k v|b0 k|b0|b0|b0|b0 acts]; simpl; try exact IH.
+    - destruct (Z.eqb b0 b); [|exact IH]. destruct (bsid_r older b); [apply sorted_aset; exact IH | exact I].
+    - destruct (Z.eqb b0 b); [|exact IH]. destruct (bsid_r older b); [apply sorted_script_new; exact IH | exact I].
   Qed.
 
   Lemma no_handle rh b :
     bsid_r rh b = None -> bnew_r rh b = [] /\ bdirty_r rh b = false /\ bdata_r rh b = [].
   Proof.
     induction rh as [|o older IH]; simpl; [auto|].
-    destruct o as [s|s|s k v|s k|s|s|b0 s|b0 k v|b0 k|b0|b0|b0]; simpl; try exact IH.
+    destruct o as [s|s|s k v|s k|s|s|b0 s|b0 k v|b0 k|b0|b0|b0|b0 acts]; simpl; try exact IH.
     - destruct (Z.eqb b0 b); [|exact IH].
       destruct (bsid_r older b) eqn:B; [discriminate|].
       destruct (conn_r older s); [|discriminate|discriminate]. intros _. destruct (IH eq_refl) as [N [D _]]. auto.
     - destruct (Z.eqb b0 b); [|exact IH]. intro H. rewrite H. destruct (IH H) as [_ [_ D]]. auto.
     - destruct (Z.eqb b0 b); [|exact IH]. intro H. destruct (IH H) as [N [_ D]]. auto.
     - destruct (Z.eqb b0 b); [|exact IH]. intro H. rewrite H. destruct (IH H) as [N [_ D]]. auto.
+    - destruct (Z.eqb b0 b); [|exact IH]. intro H. rewrite H. auto.
   Qed.
 
   (* ---------- refinement ---------- *)
@@ -218,7 +247,7 @@ Section Proofs.
     intro R. assert (LV := fun sid => rel_live rh s sid R).
     assert (CN := fun sid => rel_conn_none rh s sid R).
     destruct R as [RF RB].
-    destruct o as [s0|s0|s0 k v|s0 k|s0|s0|b0 s0|b0 k v|b0 k|b0|b0|b0]; simpl.
+    destruct o as [s0|s0|s0 k v|s0 k|s0|s0|b0 s0|b0 k v|b0 k|b0|b0|b0|b0 acts]; simpl.
     - (* OConnect *)
       destruct (aget s0 (front val s)) as [fs|] eqn:A; simpl.
       + split; [|exact RB]. intro sid. rewrite RF. unfold fstate_r. simpl.
@@ -328,6 +357,35 @@ Section Proofs.
       + split; [exact RF|]. intro b. rewrite RB. unfold bstate_r. simpl.
         destruct (Z.eqb_spec b0 b); [|reflexivity]. subst.
         rewrite RB in A. unfold bstate_r in A. destruct (bsid_r rh b); [discriminate | reflexivity].
+    - (* OBackScript *)
+      destruct (aget b0 (backs val s)) as [bs|] eqn:A; simpl.
+      + rewrite RB in A. unfold bstate_r in A. destruct (bsid_r rh b0) as [sd|] eqn:BS; [|discriminate]. inv A. simpl.
+        rewrite LV. destruct (fmap_r rh sd) as [m|] eqn:F; simpl.
+        * assert (C : conn_r rh sd = CLive) by (apply fmap_live; eauto).
+          split.
+          -- intro sid. cbn [front backs]. rewrite aget_aset_dec. unfold fstate_r. simpl. rewrite BS.
+             destruct (Z.eqb_spec sid sd).
+             ++ subst. rewrite Z.eqb_refl, F. simpl. rewrite C. reflexivity.
+             ++ destruct (Z.eqb_spec sd sid); [congruence|]. rewrite RF. reflexivity.
+          -- intro b. cbn [front backs]. rewrite aget_aset_dec. unfold bstate_r. simpl.
+             destruct (Z.eqb_spec b b0).
+             ++ subst. rewrite Z.eqb_refl, BS, F. unfold Spec.live_r. rewrite C. simpl. reflexivity.
+             ++ destruct (Z.eqb_spec b0 b); [congruence|]. rewrite RB. reflexivity.
+        * split.
+          -- intro sid. cbn [front backs]. rewrite RF. unfold fstate_r. simpl. rewrite BS.
+             destruct (Z.eqb_spec sd sid); [|reflexivity]. subst. rewrite F. reflexivity.
+          -- intro b. cbn [front backs]. rewrite aget_aset_dec. unfold bstate_r. simpl.
+             destruct (Z.eqb_spec b b0).
+             ++ subst. rewrite Z.eqb_refl, BS, F. unfold Spec.live_r.
+                destruct (conn_r rh sd) eqn:C; try reflexivity.
+                apply fmap_live in C. destruct C as [m C]. congruence.
+             ++ destruct (Z.eqb_spec b0 b); [congruence|]. rewrite RB. reflexivity.
+      + split.
+        * intro sid. rewrite RF. unfold fstate_r. simpl.
+          rewrite RB in A. unfold bstate_r in A. destruct (bsid_r rh b0); [discriminate | reflexivity].
+        * intro b. rewrite RB. unfold bstate_r. simpl.
+          destruct (Z.eqb_spec b0 b); [|reflexivity]. subst.
+          rewrite RB in A. unfold bstate_r in A. destruct (bsid_r rh b); [discriminate | reflexivity].
   Qed.
 
   Lemma run_from_app a : forall s b,
@@ -378,7 +436,7 @@ Section Proofs.
     assert (LV := fun sid => rel_live (rev h) (final h) sid R).
     assert (CN := fun sid => rel_conn_none (rev h) (final h) sid R).
     destruct R as [RF RB]. unfold Spec.spec_obs, Spec.forward_spec, Spec.fmap, Spec.bsid, Spec.conn_of, Spec.bnew, Spec.bdata.
-    destruct o as [s0|s0|s0 k v|s0 k|s0|s0|b0 s0|b0 k v|b0 k|b0|b0|b0]; simpl.
+    destruct o as [s0|s0|s0 k v|s0 k|s0|s0|b0 s0|b0 k v|b0 k|b0|b0|b0|b0 acts]; simpl.
     - destruct (aget s0 (front val (final h))) as [fs|] eqn:A.
       + simpl. destruct (conn_r (rev h) s0) eqn:C; [|reflexivity|reflexivity].
         apply CN in C. congruence.
@@ -397,6 +455,8 @@ Section Proofs.
     - rewrite RB. unfold bstate_r. destruct (bsid_r (rev h) b0); reflexivity.
     - rewrite RB. unfold bstate_r. destruct (bsid_r (rev h) b0) as [sd|]; [|reflexivity]. simpl.
       destruct (bdirty_r (rev h) b0); [|reflexivity]. rewrite LV. destruct (fmap_r (rev h) sd); reflexivity.
+    - rewrite RB. unfold bstate_r. destruct (bsid_r (rev h) b0) as [sd|]; [|reflexivity]. simpl.
+      rewrite LV. destruct (fmap_r (rev h) sd); reflexivity.
     - rewrite RB. unfold bstate_r. destruct (bsid_r (rev h) b0) as [sd|]; [|reflexivity]. simpl.
       rewrite LV. destruct (fmap_r (rev h) sd); reflexivity.
   Qed.
@@ -447,11 +507,13 @@ Section Proofs.
   Theorem frame h o sid : writes_to h o <> Some sid -> fmap (h ++ [o]) sid = fmap h sid.
   Proof.
     intro N. rewrite fmap_snoc. unfold Spec.fmap.
-    destruct o as [s0|s0|s0 k v|s0 k|s0|s0|b0 s0|b0 k v|b0 k|b0|b0|b0]; simpl in *; try reflexivity.
+    destruct o as [s0|s0|s0 k v|s0 k|s0|s0|b0 s0|b0 k v|b0 k|b0|b0|b0|b0 acts]; simpl in *; try reflexivity.
     - destruct (Z.eqb_spec s0 sid); [congruence | reflexivity].
     - destruct (Z.eqb_spec s0 sid); [congruence | reflexivity].
     - destruct (Z.eqb_spec s0 sid); [congruence | reflexivity].
     - unfold Spec.effective_push, Spec.bsid in *. destruct (bsid_r (rev h) b0) as [sd|]; [|reflexivity].
+      destruct (Z.eqb_spec sd sid); [congruence | reflexivity].
+    - unfold Spec.bsid in *. destruct (bsid_r (rev h) b0) as [sd|]; [|reflexivity].
       destruct (Z.eqb_spec sd sid); [congruence | reflexivity].
   Qed.
 
@@ -537,6 +599,82 @@ Section Proofs.
     { unfold h1, Spec.bsid in *. rewrite !rev_unit. simpl. exact B2. }
     destruct (query_law _ b2 sid m' B2' F2) as [_ Q]. rewrite Q, L, N1. rewrite rt_idem. reflexivity.
   Qed.
+
+  (* ---------- pipelined scripts ---------- *)
+
+  Notation set_in := (set_in val).
+
+  Lemma script_new_keeps acts : forall (nw : smap) k, aget k nw <> None -> aget k (script_new nw acts) <> None.
+  Proof.
+    induction acts as [|a r IH]; intros nw k H; simpl; [exact H|].
+    destruct a as [k0 v| |]; apply IH; [|exact H|exact H].
+    rewrite aget_aset_dec. destruct (Z.eqb k k0); [discriminate | exact H].
+  Qed.
+
+  (* while a script runs: either the session is dirty (the next push will carry everything),
+     or every key of interest already has, on the front-end, the normal form of its NewData value *)
+  Lemma script_inv acts : forall (m nw : smap) d (P : Z -> Prop),
+    sorted nw ->
+    (d = true \/ forall k, P k -> aget k m = option_map rt (aget k nw)) ->
+    (forall k, P k -> aget k nw <> None) ->
+    script_dirty d acts = true \/
+    forall k, (P k \/ set_in k acts = true) ->
+              aget k (script_front m nw d acts) = option_map rt (aget k (script_new nw acts)).
+  Proof.
+    induction acts as [|a r IH]; intros m nw d P S H K; simpl.
+    - destruct H as [H|H]; [left; exact H | right]. intros k [PK|F]; [apply H; exact PK | discriminate].
+    - destruct a as [k0 v| |].
+      + destruct (IH m (aset k0 v nw) true (fun k => P k \/ k = k0) (sorted_aset _ _ _ S)) as [D|R].
+        * left. reflexivity.
+        * intros k [PK|E]; rewrite aget_aset_dec; destruct (Z.eqb_spec k k0); try discriminate; [apply K; exact PK | congruence].
+        * left. exact D.
+        * right. intros k [PK|SK]; apply R; [tauto|].
+          apply orb_true_iff in SK. destruct SK as [SK|SK]; [apply Z.eqb_eq in SK; tauto | tauto].
+      + destruct d.
+        * apply (IH (merge_into m (norm nw)) nw false P S); [|exact K].
+          right. intros k PK. rewrite (merge_law val); [|apply sorted_norm; exact S]. rewrite aget_norm.
+          specialize (K k PK). destruct (aget k nw); [reflexivity | contradiction].
+        * apply (IH m nw false P S); [|exact K]. destruct H as [H|H]; [discriminate | right; exact H].
+      + apply (IH m nw d P S H K).
+  Qed.
+
+  Lemma script_new_set acts : forall (nw : smap) k, set_in k acts = true -> aget k (script_new nw acts) <> None.
+  Proof.
+    induction acts as [|a r IH]; intros nw k H; simpl in *; [discriminate|].
+    destruct a as [k0 v| |]; simpl in H; try (apply IH; exact H).
+    apply orb_true_iff in H. destruct H as [H|H]; [|apply IH; exact H].
+    apply Z.eqb_eq in H. subst. apply script_new_keeps. rewrite aget_aset_same. discriminate.
+  Qed.
+
+  (* A handler that sets and pushes WITHOUT waiting for acknowledgements, in any order, and
+     finally pushes once more: every key it set has, on the front-end, the normal form of the
+     last value it set - nothing set between a push and its acknowledgement is lost. *)
+  Theorem script_then_push h b sid m acts :
+    bsid h b = Some sid -> fmap h sid = Some m -> has_query acts = false ->
+    exists m', fmap ((h ++ [OBackScript b acts]) ++ [OBackPush b]) sid = Some m' /\
+      forall k, set_in k acts = true ->
+        exists v, aget k (bnew ((h ++ [OBackScript b acts]) ++ [OBackPush b]) b) = Some v /\
+                  aget k m' = Some (rt v).
+  Proof.
+    unfold Spec.bsid, Spec.fmap, Spec.bnew. intros BS F HQ. rewrite !rev_unit. simpl.
+    unfold Spec.effective_push. simpl. rewrite Z.eqb_refl, BS, Z.eqb_refl, F, HQ, andb_false_r. simpl.
+    set (nw := bnew_r (rev h) b). set (d := bdirty_r (rev h) b).
+    assert (SN : sorted nw) by apply bnew_sorted.
+    destruct (script_inv acts m nw d (fun _ => False) SN) as [D|R].
+    - right. intros k [].
+    - intros k [].
+    - rewrite D. simpl. eexists. split; [reflexivity|]. intros k SK.
+      assert (NN := script_new_set acts nw k SK).
+      destruct (aget k (script_new nw acts)) as [v|] eqn:E; [|contradiction].
+      exists v. split; [reflexivity|].
+      rewrite (merge_law val); [|apply sorted_norm, sorted_script_new; exact SN]. rewrite aget_norm, E. reflexivity.
+    - destruct (script_dirty d acts) eqn:DD; simpl; (eexists; split; [reflexivity|]); intros k SK;
+        assert (NN := script_new_set acts nw k SK);
+        destruct (aget k (script_new nw acts)) as [v|] eqn:E; try contradiction; exists v; (split; [reflexivity|]).
+      + rewrite (merge_law val); [|apply sorted_norm, sorted_script_new; exact SN]. rewrite aget_norm, E. reflexivity.
+      + rewrite (R k (or_intror SK)), E. reflexivity.
+  Qed.
+
 End Proofs.
 
 (* the concrete JSON normalisation of Corr.v is idempotent *)
